@@ -33,6 +33,17 @@ func init() {
 	register("C10", "G-LEVELS", ruleGLevels)
 	register("C10", "G-ABBREV", ruleGAbbrev)
 
+	register("C13", "N-OWN", ruleNOwn)
+	register("C13", "N-RESTORE", ruleNRestore)
+	register("C13", "N-PEER", ruleNPeer)
+	register("C13", "N-ITER", ruleNIter)
+
+	register("C07", "A-OPS", ruleAOps)
+	register("C07", "A-CELLS", ruleACells)
+	register("C07", "N-RESTORE", ruleNRestore)
+	register("C07", "N-PEER", ruleNPeer)
+	register("C07", "C07-SC", ruleShortCircuit)
+
 	register("C17", "G-PAIR", ruleGPair)
 	register("C17", "G-EXPECT", ruleGExpect)
 	register("C17", "T-RECOVER", ruleTRecover)
